@@ -445,9 +445,8 @@ class HttpBeaconClient:
 
         def decorator(func):
             logger.debug("register_task %s -> %s", command, func)
-            value = command
-            if command and not isinstance(command, int):
-                value = command.value
+            # normalize to a plain int (enum members of dissect.cstruct compare equal to ints but hash differently)
+            value = command if command is None else int(command)
             self.register_task(value, func)
             return func
 
